@@ -118,6 +118,31 @@ let () = iter_lines (fun line ->
       | Res.Ok ((w, h), rows) -> Printf.sprintf "ok %d %d %s" (int_of_z w) (int_of_z h) (digest rows)
       | _ -> "err" in
     Printf.printf "I %s S %s\n" r r
+  | [("coef" | "coefs") as kind; first; ctx; dq0; dq1; datahex; probhex; warmhex] ->
+    (* getCoeffsInline: I = the Go-reader model (Vp8InlineCoeffs.go_get_coeffs) with the reader state
+       afterwards ("coef"); S = the specification's block reader on the RFC decoder ("coefs") *)
+    let z = z_of_string in
+    let data = Stdlib.List.map z_of_int (bytes_of_hex datahex) in
+    let pb = Stdlib.List.map z_of_int (bytes_of_hex probhex) in
+    let rec chunk n l = if l = [] then [] else
+        let rec take k l acc = if k = 0 then (Stdlib.List.rev acc, l) else
+            (match l with x :: t -> take (k - 1) t (x :: acc) | [] -> (Stdlib.List.rev acc, [])) in
+        let (a, b) = take n l [] in a :: chunk n b in
+    let tp = Stdlib.List.map (chunk 11) (chunk 33 pb) in
+    let warm = Stdlib.List.map z_of_int (bytes_of_hex (if warmhex = "-" then "" else warmhex)) in
+    let g0 = Vp8GoReader.gr_load { Vp8GoReader.gr_value = z_of_int 0; gr_range = z_of_int 254; gr_bits = z_of_int (-8);
+                                   gr_rest = data; gr_eof = false } in
+    let g = Stdlib.List.fold_left (fun g p -> snd (Vp8GoReader.gr_bit p g)) g0 warm in
+    let d = Stdlib.List.fold_left (fun d p -> snd (Vp8Bool.read_bool p d)) (Vp8Bool.bd_init data) warm in
+    let show c eob = Printf.sprintf "%s %s" (string_of_z eob) (String.concat "," (Stdlib.List.map string_of_z c)) in
+    let ((c, eob), g') = Vp8InlineCoeffs.go_get_coeffs tp (z first) (z ctx) (z dq0) (z dq1) g in
+    if kind = "coef" then
+      Printf.printf "I %s v%s r%s b%s\n" (show c eob) (string_of_z g'.Vp8GoReader.gr_value)
+        (string_of_z g'.Vp8GoReader.gr_range) (string_of_z g'.Vp8GoReader.gr_bits)
+    else begin
+      let ((c2, eob2), _) = Vp8Syntax.decode_block tp (z first) (z ctx) (z dq0) (z dq1) d in
+      Printf.printf "I %s S %s\n" (show c eob) (show c2 eob2)
+    end
   | "benc" :: ops ->
     (* boolean encoder: ops b<bit>:<prob>  u<bit>  v<value>:<count>  s<value>:<count>; the model's
        bytes, and (for b/u-only sequences) whether the RFC decoder reads the bits back *)
